@@ -4,7 +4,9 @@ from .. import pathcheck as pc, scene, geom
 from ..gen import f32bits as FB, bits_f32
 from . import _path
 
-RULE = ("PathBuilder::rect with finite parameters of every sign (op list compared bit for bit with the model: MoveTo(x,y), "
+RULE = ("sequences of 0..8 PathBuilder calls (move_to, line_to, quad_to, cubic_to, close, rect) whose finish() is compared with "
+        "the model's fold over the calls and with the statement (ops in call order, NonZero); "
+        "PathBuilder::rect with finite parameters of every sign (op list compared bit for bit with the model: MoveTo(x,y), "
         "LineTo(x+w,y), LineTo(x+w,y+h), LineTo(x,y+h), Close, NonZero); Path::transform with transforms from the exact "
         "families and general ones on paths of every op kind (bit for bit: every point of every op mapped, order and winding "
         "kept); PathBuilder::arc for any start angle, sweeps of both signs incl. 0 and beyond a full turn, r >= 0, with and "
@@ -17,7 +19,16 @@ RULE = ("PathBuilder::rect with finite parameters of every sign (op list compare
 def make_lines(rng, n):
     lines = []
     for i in range(n):
-        k = i % 3
+        k = i % 4
+        if k == 3:
+            # a sequence of builder calls: finish() must return their ops in call order, NonZero
+            calls = []
+            V = lambda: str(FB(rng.choice([rng.randrange(-40, 41) / 4.0, rng.random() * 200 - 100, 0.0])))
+            for _ in range(rng.randrange(0, 9)):
+                c = rng.choice("mlqczr" + "ll")
+                calls.append(c + "".join(" " + V() for _ in range({"m": 2, "l": 2, "q": 4, "c": 6, "z": 0, "r": 4}[c])))
+            lines.append("pbuild %d %d %s" % (i, len(calls), " ".join(calls)))
+            continue
         if k == 0:
             c = rng.random()
             vals = [rng.randrange(-40, 41) / 4.0 for _ in range(4)] if c < 0.5 else [rng.random() * 200 - 100 for _ in range(4)]
@@ -78,6 +89,26 @@ def oracle(aug, impl):
         exp = [("M", x, y), ("L", x + w_, y), ("L", x + w_, y + h), ("L", x, y + h), ("Z",)]
         if w2 != 0 or len(ops) != 5 or any(a[0] != b[0] or any(abs(u - v) > 1e-4 * (1 + abs(v)) for u, v in zip(a[1:], b[1:])) for a, b in zip(ops, exp)):
             return "rect did not produce the closed rectangle with corners (x,y) and (x+w,y+h)"
+        return None
+    if t[0] == "pbuild":
+        it = impl.split()
+        if it[1] != "ok":
+            return "a PathBuilder call panicked"
+        w2, ops, _ = _path.parse_path(it, 2)
+        f32 = lambda v: bits_f32(FB(v))
+        exp, j = [], 3
+        for _ in range(int(t[2])):
+            c = t[j]; j += 1
+            nv = {"m": 2, "l": 2, "q": 4, "c": 6, "z": 0, "r": 4}[c]
+            v = [bits_f32(int(z)) for z in t[j:j + nv]]; j += nv
+            if c == "r":
+                x, y, w_, h = v
+                exp += [("M", x, y), ("L", f32(x + w_), y), ("L", f32(x + w_), f32(y + h)), ("L", x, f32(y + h)), ("Z",)]
+            else:
+                exp.append(({"m": "M", "l": "L", "q": "Q", "c": "C", "z": "Z"}[c],) + tuple(v))
+        same = lambda a, b: len(a) == len(b) and a[0] == b[0] and all(FB(u) == FB(w) or (u != u and w != w) for u, w in zip(a[1:], b[1:]))
+        if w2 != 0 or len(ops) != len(exp) or not all(same(a, b) for a, b in zip(ops, exp)):
+            return "finish() did not return the ops of the calls in call order with NonZero winding"
         return None
     if t[0] != "parc":
         return "skip"
@@ -156,8 +187,8 @@ ASSUME = ["lyon_geom's arc approximation is an oracle checked numerically (f64, 
 
 def run(ctx):
     return _path.run_property(ctx, make_lines, RULE, oracle, ASSUME, nontrivial, 4500, 90000,
-                              "PathOps.builder_rect / path_transform vs PathBuilder::rect / Path::transform")
+                              "PathOps.builder_rect / path_transform / PathShape.b_run vs PathBuilder::rect / Path::transform / PathBuilder")
 
 
 def replay(ctx, path):
-    return _path.replay(ctx, path, oracle, "PathOps.builder_rect / path_transform vs PathBuilder::rect / Path::transform")
+    return _path.replay(ctx, path, oracle, "PathOps.builder_rect / path_transform / PathShape.b_run vs PathBuilder::rect / Path::transform / PathBuilder")
